@@ -21,13 +21,11 @@ theorem mod_add_right_cancel {x y a p : Nat} (hx : x < p) (hy : y < p)
     omega
 
 /-- the C expression `(local_id - node_id) % local_size` with the negative fix-up, in `Nat` -/
-theorem partnerOffset_eq (p r : Nat) :
-    partnerOffset p r =
-      if node p r ≤ loc p r then (loc p r - node p r) % p
-      else if (node p r - loc p r) % p = 0 then 0 else p - (node p r - loc p r) % p := by
-  unfold partnerOffset
-  generalize node p r = a
-  generalize loc p r = l
+theorem offsetOf_eq (p l a : Nat) :
+    offsetOf p l a =
+      if a ≤ l then (l - a) % p
+      else if (a - l) % p = 0 then 0 else p - (a - l) % p := by
+  unfold offsetOf
   by_cases h : a ≤ l
   · rw [if_pos h]
     have e : (l : Int) - (a : Int) = ((l - a : Nat) : Int) := by omega
@@ -45,12 +43,9 @@ theorem partnerOffset_eq (p r : Nat) :
 
 /-- what the offset is for: it is a node index class `< p` with
 `(offset + my node) ≡ my on-node index (mod p)` -/
-theorem partnerOffset_spec {p : Nat} (hp : 0 < p) (r : Nat) :
-    partnerOffset p r < p ∧ (partnerOffset p r + node p r) % p = loc p r := by
-  rw [partnerOffset_eq]
-  have hl := loc_lt hp r
-  generalize node p r = a at *
-  generalize loc p r = l at *
+theorem offsetOf_spec {p : Nat} (hp : 0 < p) {l : Nat} (hl : l < p) (a : Nat) :
+    offsetOf p l a < p ∧ (offsetOf p l a + a) % p = l := by
+  rw [offsetOf_eq]
   by_cases h : a ≤ l
   · rw [if_pos h]
     refine ⟨Nat.mod_lt _ hp, ?_⟩
@@ -69,6 +64,16 @@ theorem partnerOffset_spec {p : Nat} (hp : 0 < p) (r : Nat) :
         rw [Nat.mul_add, Nat.mul_one]; omega
       rw [this, Nat.add_mul_mod_self_left, Nat.mod_eq_of_lt hl]
 
+theorem partnerOffset_eq (p r : Nat) :
+    partnerOffset p r =
+      if node p r ≤ loc p r then (loc p r - node p r) % p
+      else if (node p r - loc p r) % p = 0 then 0 else p - (node p r - loc p r) % p :=
+  offsetOf_eq p (loc p r) (node p r)
+
+theorem partnerOffset_spec {p : Nat} (hp : 0 < p) (r : Nat) :
+    partnerOffset p r < p ∧ (partnerOffset p r + node p r) % p = loc p r :=
+  offsetOf_spec hp (loc_lt hp r) (node p r)
+
 /-- on a list sorted by `≤`, leaving the loop at the first element `≥ n` keeps exactly
 the elements `< n` -/
 theorem takeWhile_lt_eq_filter (n : Nat) :
@@ -86,38 +91,20 @@ theorem takeWhile_lt_eq_filter (n : Nat) :
 
 /-! ### stage 2: the layered partner loop -/
 
-/-- the `l`-th value of `curr_partner`: my on-node index on node `offset + l·p` -/
-theorem candidate_eq (p r l : Nat) :
-    strided p r (partnerOffset p r) + l * (p * p)
-      = mk p (partnerOffset p r + l * p) (loc p r) := by
-  unfold strided mk
-  rw [Nat.add_mul, Nat.mul_assoc]; omega
-
 theorem candidates_pairwise_lt {p : Nat} (hp : 0 < p) (N r : Nat) :
     (layerCandidates N p r).Pairwise (· < ·) := by
   unfold layerCandidates
   rw [List.pairwise_map]
   exact List.pairwise_lt_range.imp
-    (fun h => Nat.add_lt_add_left (Nat.mul_lt_mul_of_pos_right h (Nat.mul_pos hp hp)) _)
+    (fun h => Nat.add_lt_add_left (Nat.mul_lt_mul_of_pos_right h hp) _)
 
+/-- the `break` keeps exactly the partner nodes `< N` -/
 theorem remotePartners_eq {p : Nat} (hp : 0 < p) (N r : Nat) :
     remotePartners N p r =
-      if partnerOffset p r < N then
-        (layerCandidates N p r).filter (fun c => decide (c < N * p) && !isLocal p r c)
-      else [] := by
+      (((layerCandidates N p r).filter (fun b => decide (b < N))).map (strided p r)).filter
+        (fun c => !isLocal p r c) := by
   unfold remotePartners
-  split
-  · rw [takeWhile_lt_eq_filter _ _ ((candidates_pairwise_lt hp N r).imp Nat.le_of_lt),
-      List.filter_filter]
-    congr 1; funext c; exact Bool.and_comm _ _
-  · rfl
-
-theorem remotePartners_sublist {p : Nat} (hp : 0 < p) (N r : Nat) :
-    (remotePartners N p r).Sublist (layerCandidates N p r) := by
-  rw [remotePartners_eq hp]
-  split
-  · exact List.filter_sublist
-  · exact List.nil_sublist _
+  rw [takeWhile_lt_eq_filter _ _ ((candidates_pairwise_lt hp N r).imp Nat.le_of_lt)]
 
 theorem div_lt_numLayers {N p b : Nat} (hp : 0 < p) (hb : b < N) : b / p < numLayers N p := by
   unfold numLayers
@@ -141,21 +128,21 @@ theorem mem_remotePartners {p : Nat} (hp : 0 < p) (N r q : Nat) :
   rw [remotePartners_eq hp]
   constructor
   · intro h
-    split at h
-    · rw [List.mem_filter] at h
-      obtain ⟨hm, hc⟩ := h
-      unfold layerCandidates at hm
-      rw [List.mem_map] at hm
-      obtain ⟨l, _, hl⟩ := hm
-      rw [candidate_eq] at hl
-      subst hl
-      simp only [Bool.and_eq_true, decide_eq_true_eq, Bool.not_eq_true', isLocal,
-        beq_eq_false_iff_ne, ne_eq] at hc
-      rw [node_mk hj, loc_mk hj] at *
-      refine ⟨hc.1, fun e => hc.2 e.symm, rfl, ?_⟩
-      have : partnerOffset p r + l * p + node p r = (partnerOffset p r + node p r) + l * p := by omega
-      rw [this, Nat.add_mul_mod_self_right, hspec]
-    · simp at h
+    rw [List.mem_filter, List.mem_map] at h
+    obtain ⟨⟨b, hb, rfl⟩, hc⟩ := h
+    rw [List.mem_filter] at hb
+    obtain ⟨hm, hbN⟩ := hb
+    unfold layerCandidates at hm
+    rw [List.mem_map] at hm
+    obtain ⟨l, _, rfl⟩ := hm
+    simp only [decide_eq_true_eq] at hbN
+    simp only [Bool.not_eq_true', isLocal, beq_eq_false_iff_ne, ne_eq] at hc
+    unfold strided at hc ⊢
+    rw [node_mk hj] at hc
+    rw [node_mk hj, loc_mk hj]
+    refine ⟨mk_lt hbN hj, fun e => hc e.symm, rfl, ?_⟩
+    have : partnerOffset p r + l * p + node p r = (partnerOffset p r + node p r) + l * p := by omega
+    rw [this, Nat.add_mul_mod_self_right, hspec]
   · rintro ⟨hq, hne, hl, hm⟩
     have hb := node_lt hq
     -- the node of `q` is in the residue class of the offset
@@ -163,24 +150,65 @@ theorem mem_remotePartners {p : Nat} (hp : 0 < p) (N r q : Nat) :
       apply mod_add_right_cancel (a := node p r) (Nat.mod_lt _ hp) hoff
       rw [Nat.mod_add_mod, hm, hspec]
     have hdm := Nat.div_add_mod (node p q) p
-    have hoffN : partnerOffset p r < N := by
-      have : node p q % p ≤ node p q := Nat.mod_le _ _
-      omega
-    rw [if_pos hoffN, List.mem_filter]
-    refine ⟨?_, ?_⟩
-    · unfold layerCandidates
+    rw [List.mem_filter, List.mem_map]
+    refine ⟨⟨node p q, ?_, ?_⟩, ?_⟩
+    · rw [List.mem_filter]
+      refine ⟨?_, by simpa using hb⟩
+      unfold layerCandidates
       rw [List.mem_map]
       refine ⟨node p q / p, List.mem_range.2 (div_lt_numLayers hp hb), ?_⟩
-      rw [candidate_eq, ← hl]
-      have : partnerOffset p r + node p q / p * p = node p q := by
-        rw [Nat.mul_comm]; omega
-      rw [this]; exact mk_node_loc p q
-    · simp only [Bool.and_eq_true, decide_eq_true_eq, Bool.not_eq_true', isLocal,
-        beq_eq_false_iff_ne, ne_eq]
-      exact ⟨hq, fun e => hne e.symm⟩
+      rw [Nat.mul_comm]; omega
+    · unfold strided
+      rw [← hl]; exact mk_node_loc p q
+    · simp only [Bool.not_eq_true', isLocal, beq_eq_false_iff_ne, ne_eq]
+      exact fun e => hne e.symm
 
-theorem remotePartners_nodup {p : Nat} (hp : 0 < p) (N r : Nat) : (remotePartners N p r).Nodup :=
-  ((candidates_pairwise_lt hp N r).imp Nat.ne_of_lt).sublist (remotePartners_sublist hp N r)
+theorem remotePartners_nodup {p : Nat} (hp : 0 < p) (N r : Nat) : (remotePartners N p r).Nodup := by
+  rw [remotePartners_eq hp]
+  refine List.Pairwise.sublist List.filter_sublist ?_
+  rw [List.pairwise_map]
+  refine ((candidates_pairwise_lt hp N r).sublist List.filter_sublist).imp ?_
+  intro a b hab e
+  unfold strided mk at e
+  have := Nat.mul_lt_mul_of_pos_right hab hp
+  omega
+
+/-- for the block placement the repaired loop (lookup by partner node) and the loop before the repair (rank
+arithmetic `+= local_size²`, `break` on the rank) compute the same partners in the same order -/
+theorem remotePartners_eq_old {p : Nat} (hp : 0 < p) (N r : Nat) :
+    remotePartners N p r = remotePartnersOld N p r := by
+  have hj := loc_lt hp r
+  unfold remotePartnersOld
+  split
+  · unfold remotePartners
+    have e1 : (List.range (numLayers N p)).map (fun l => strided p r (partnerOffset p r) + l * (p * p))
+        = (layerCandidates N p r).map (strided p r) := by
+      unfold layerCandidates
+      rw [List.map_map]
+      apply List.map_congr_left
+      intro l _
+      simp only [Function.comp, strided, mk]
+      rw [Nat.add_mul, Nat.mul_assoc]; omega
+    have e2 : ((fun c => decide (c < N * p)) ∘ strided p r) = (fun b => decide (b < N)) := by
+      funext b
+      simp only [Function.comp, strided]
+      apply decide_eq_decide.2
+      constructor
+      · intro h
+        have := node_lt h
+        rwa [node_mk hj] at this
+      · intro h; exact mk_lt h hj
+    rw [e1, List.takeWhile_map, e2]
+  · rename_i hoff
+    rw [remotePartners_eq hp]
+    have : (layerCandidates N p r).filter (fun b => decide (b < N)) = [] := by
+      rw [List.filter_eq_nil_iff]
+      intro b hb
+      unfold layerCandidates at hb
+      rw [List.mem_map] at hb
+      obtain ⟨l, _, rfl⟩ := hb
+      simp; omega
+    rw [this]; rfl
 
 /-! ### on-node tables -/
 
